@@ -110,6 +110,35 @@ Definition granted_ok (t : nat) (per r : res) : bool :=
   opt_eqb (r0 r) (r0 per) && opt_eqb (r1 r) (r1 per)
   && match t with O => true | _ => opt_eqb (r2 r) (r2 per) end.
 
+(* ---------- GPU partition tables (node kinds 1 and 2) *)
+(* the partition path hands out whole unused GPUs without comparing the request with the free
+   amount; that is sound when the request fits the total of every GPU that exposes anything *)
+Definition part_fit (tot : devres) (per : res) : bool :=
+  forallb (fun o => match o with Some T => ris_zero T || rle per T | None => true end) tot.
+Definition pfit (kind : Z) (tot : devres) (per : res) (shared : bool) : bool :=
+  negb (has_part_table kind) || shared || part_fit tot per.
+Definition sched_ok (kind : Z) (pl : list ledger) (rq : rawreq) : bool :=
+  match treq_of rq 0 with
+  | TReq per _ sh => pfit kind (total (ledger_of pl 0)) per sh
+  | _ => true
+  end.
+(* a GPU a partition may contain: listed, exposing something, and entirely free *)
+Definition part_free_minor (l : ledger) (minors : list nat) (m : nat) : bool :=
+  memn m minors && negb (ris_zero (ores (dget (total l) m)))
+  && match dget (free l) m with
+     | Some _ => forallb (fun k => match rget (ores (dget (total l) m)) k with
+                                   | Some t => dval (free l) m k =? t
+                                   | None => true end) slots
+     | None => false
+     end.
+(* honoured partitions: no partition of the requested size consists of free GPUs only *)
+Definition part_short (kind : Z) (l : ledger) (minors : list nat) (count : Z) (shared : bool) : bool :=
+  honor_part kind && negb shared
+  && match hopper_table (desired_count count) with
+     | Some ps => forallb (fun p => negb (forallb (part_free_minor l minors) p)) ps
+     | None => true
+     end.
+
 (* clause 4: a successful allocation of type t *)
 Definition alloc_sound_t (pl : list ledger) (infos : list devinfo) (t : nat) (rq : rawreq)
            (al : list alloc) : bool :=
@@ -123,10 +152,11 @@ Definition alloc_sound_t (pl : list ledger) (infos : list devinfo) (t : nat) (rq
   | _ => match al with [] => true | _ => false end
   end.
 (* clause 5: a refused allocation: some requested type has fewer eligible devices than desired *)
-Definition alloc_short_t (pl : list ledger) (infos : list devinfo) (t : nat) (rq : rawreq) : bool :=
+Definition alloc_short_t (kind : Z) (pl : list ledger) (infos : list devinfo) (t : nat) (rq : rawreq) : bool :=
   match treq_of rq t with
-  | TReq per count _ =>
+  | TReq per count sh =>
       Nat.ltb (eligible_count (ledger_of pl t) (minors_of infos t) per) (desired_of count)
+      || (Nat.eqb t 0 && part_short kind (ledger_of pl t) (minors_of infos t) count sh)
   | _ => false
   end.
 Definition no_device_t (pl : list ledger) (t : nat) (rq : rawreq) : bool :=
@@ -149,12 +179,14 @@ Definition preempt_enough_t (pl : list ledger) (infos : list devinfo) (victims :
               (maybe_count (preempt_ledger (ledger_of pl t) victims) (minors_of infos t) per)
   | _ => true
   end.
-Definition preempt_short_t (pl : list ledger) (infos : list devinfo) (victims : list Z)
+Definition preempt_short_t (kind : Z) (pl : list ledger) (infos : list devinfo) (victims : list Z)
            (t : nat) (rq : rawreq) : bool :=
   match treq_of rq t with
-  | TReq per count _ =>
+  | TReq per count sh =>
       Nat.ltb (eligible_count (preempt_ledger (ledger_of pl t) victims) (minors_of infos t) per)
               (desired_of count)
+      || (Nat.eqb t 0 && part_short kind (preempt_ledger (ledger_of pl t) victims)
+                                    (minors_of infos t) count sh)
   | _ => false
   end.
 
@@ -214,10 +246,11 @@ Record track := mkTrack {
   k_prev : list ledger;       (* ledgers observed after the previous operation *)
   k_wf : bool;                (* all environment-supplied data so far were well-formed *)
   k_env : bool;               (* no environment operation so far left a device over-committed *)
-  k_rec : list (Z * (dallocs * bool))   (* pods the environment considers bound, with their allocation *)
+  k_rec : list (Z * (dallocs * bool));  (* pods the environment considers bound, with their allocation *)
+  k_kind : Z                  (* node labels (partition table / policy), see [nkind] *)
 }.
 Definition init_track : track :=
-  mkTrack [] [empty_ledger; empty_ledger; empty_ledger] true true [].
+  mkTrack [] [empty_ledger; empty_ledger; empty_ledger] true true [] 0.
 
 Definition first_nz (l : list Z) : Z :=
   fold_right (fun c r => if c =? 0 then r else c) 0 l.
@@ -227,7 +260,7 @@ Definition chk (b : bool) (c : Z) : Z := if b then 0 else c.
 Definition is_frame (o : op) (code : Z) : bool :=
   (code =? -1)
   || match o with
-     | OPodAdd _ | OPreemptFilter _ _ _ => true
+     | OPodAdd _ | OPreemptFilter _ _ _ | ONodeKind _ => true
      | OSchedule _ _ => negb (code =? 0)
      | _ => false
      end.
@@ -235,12 +268,14 @@ Definition is_frame (o : op) (code : Z) : bool :=
 Definition check_schedule (k : track) (rq : rawreq) (out : opout) : Z :=
   let c := o_code out in
   if c =? 0 then
-    chk (forallb (fun t => alloc_sound_t (k_prev k) (k_infos k) t rq (allocs_of (o_allocs out) t)) type_ids) 4
+    chk (negb (sched_ok (k_kind k) (k_prev k) rq)
+         || forallb (fun t => alloc_sound_t (k_prev k) (k_infos k) t rq (allocs_of (o_allocs out) t)) type_ids) 4
   else if c =? 1 then
-    chk (existsb (fun t => alloc_short_t (k_prev k) (k_infos k) t rq) type_ids) 5
+    chk (existsb (fun t => alloc_short_t (k_kind k) (k_prev k) (k_infos k) t rq) type_ids) 5
   else if c =? 2 then
     chk (existsb (fun t => is_invalid (treq_of rq t)) type_ids
-         || existsb (fun t => no_device_t (k_prev k) t rq) type_ids) 5
+         || existsb (fun t => no_device_t (k_prev k) t rq) type_ids
+         || part_unsupported (k_kind k) (treq_of rq 0)) 5
   else if c =? 4 then
     chk (negb (existsb (fun t => is_req (treq_of rq t) || is_invalid (treq_of rq t)) type_ids)) 5
   else if c =? -1 then 0
@@ -249,20 +284,26 @@ Definition check_schedule (k : track) (rq : rawreq) (out : opout) : Z :=
 Definition check_preempt (k : track) (rq : rawreq) (victims : list Z) (out : opout) : Z :=
   let c := o_code out in
   if c =? 0 then
-    chk (forallb (fun t => preempt_enough_t (k_prev k) (k_infos k) victims t rq) type_ids) 10
+    chk (negb (sched_ok (k_kind k) (k_prev k) rq)
+         || forallb (fun t => preempt_enough_t (k_prev k) (k_infos k) victims t rq) type_ids) 10
   else if c =? 1 then
-    chk (existsb (fun t => preempt_short_t (k_prev k) (k_infos k) victims t rq) type_ids) 11
+    chk (existsb (fun t => preempt_short_t (k_kind k) (k_prev k) (k_infos k) victims t rq) type_ids) 11
   else if c =? 2 then
     chk (existsb (fun t => is_invalid (treq_of rq t)) type_ids
-         || existsb (fun t => no_device_t (k_prev k) t rq) type_ids) 11
+         || existsb (fun t => no_device_t (k_prev k) t rq) type_ids
+         || part_unsupported (k_kind k) (treq_of rq 0)) 11
   else if c =? 4 then
     chk (negb (existsb (fun t => is_req (treq_of rq t) || is_invalid (treq_of rq t)) type_ids)) 11
   else 7.
 
+(* a scheduling step stays inside the environment hypothesis only if, on a node with a partition
+   table, a whole-GPU request fits the total of every GPU *)
+Definition step_ok (k : track) (o : op) : bool :=
+  match o with OSchedule _ rq => sched_ok (k_kind k) (k_prev k) rq | _ => true end.
 Definition check_step (k : track) (o : op) (ob : obsrec) : Z :=
   let '(out, ls) := ob in
   let wf := k_wf k && op_wf o in
-  let env := k_env k && (negb (is_env_op o) || inv_okb ls) in
+  let env := k_env k && (negb (is_env_op o) || inv_okb ls) && step_ok k o in
   first_nz [
     chk (negb wf || forallb (fun t => free_eqb (ledger_of ls t)) type_ids) 1;
     chk (negb wf || forallb (fun t => used_eq_sumb (ledger_of ls t)) type_ids) 2;
@@ -279,8 +320,9 @@ Definition next_track (k : track) (o : op) (ob : obsrec) : track :=
   let '(out, ls) := ob in
   mkTrack (match o with ORefresh inv => inv | _ => k_infos k end) ls
           (k_wf k && op_wf o)
-          (k_env k && (negb (is_env_op o) || inv_okb ls))
-          (next_rec (k_rec k) o out).
+          (k_env k && (negb (is_env_op o) || inv_okb ls) && step_ok k o)
+          (next_rec (k_rec k) o out)
+          (match o with ONodeKind kind => kind | _ => k_kind k end).
 
 Fixpoint prop_from (k : track) (ops : list op) (obs : list obsrec) : Z :=
   match ops, obs with
